@@ -290,3 +290,80 @@ package iscp
 //@   after call ReceiveDownstreamCall: consulted = (res0.RequestCallID == "")
 //@   after call (*sync.RWMutex).Lock: consulted = true
 //@   loop 1 invariant consulted   // every reply call is looked up in the reply table before the next message is taken
+
+// ---------------------------------------------------------------- C20: flush policies
+//@ func (*flushPolicyNone).IsFlush
+//@   props C20
+//@   nopanic
+//@   modifies nothing
+//@   ensures !result
+//@ func (*flushPolicyIntervalOnly).IsFlush
+//@   props C20
+//@   nopanic
+//@   modifies nothing
+//@   ensures !result
+//@ func (*flushPolicyBufferSizeOnly).IsFlush
+//@   props C20
+//@   nopanic
+//@   modifies nothing
+//@   ensures result == (size > p.BufferSize)
+//@ func (*flushPolicyIntervalOrBufferSize).IsFlush
+//@   props C20
+//@   nopanic
+//@   requires p.BufferPolicy != nil
+//@   modifies nothing
+//@   ensures result == (size > p.BufferPolicy.BufferSize)
+//@ func (*flushPolicyImmediately).IsFlush
+//@   props C20
+//@   nopanic
+//@   modifies nothing
+//@   ensures result
+
+// ---------------------------------------------------------------- C01 / C20: cutting a chunk
+// Monitor invariant of Upstream.mu: the buffer exists, counters are not negative, an empty
+// buffer has zero counters.
+//@ lockinv[C01,C20] Upstream.mu: self.sendBuffer != nil && self.sendBufferDataPointsCount >= 0 && self.sendBufferPayloadSize >= 0 && imp(len(self.sendBuffer) == 0, self.sendBufferDataPointsCount == 0 && self.sendBufferPayloadSize == 0)
+
+//@ func (*Upstream).clearBuffer
+//@   inline
+//@ func (sequenceNumberGenerator).CurrentValue
+//@   inline
+
+//@ func (*Upstream).validateState
+//@   props C01
+//@   nopanic
+//@   requires u.sequence != nil && u.sendBufferDataPointsCount >= 0
+//@   modifies nothing
+//@   ensures imp(result == nil, u.sequence.Current < 4294967295)
+
+// toUpstreamChunk: one group per buffered data id, each group is exactly that id's buffered
+// points (same slice), ids pairwise distinct; numbered with the next sequence number.
+//@ func (*Upstream).toUpstreamChunk
+//@   props C01
+//@   requires u.sequence != nil && u.sendBuffer != nil && u.sequence.Current < 4294967295
+//@   ensures result0 != nil && result1 != nil && result0.StreamChunk != nil
+//@   ensures u.sequence == old(u.sequence) && u.sequence.Current == old(u.sequence.Current) + 1
+//@   ensures result0.StreamChunk.SequenceNumber == u.sequence.Current && result1.SequenceNumber == u.sequence.Current
+//@   ensures result0.StreamIDAlias == u.idAlias
+//@   ensures len(result1.DataPointGroups) == old(len(u.sendBuffer))
+//@   ensures forall(i, int, imp(0 <= i && i < len(result1.DataPointGroups), result1.DataPointGroups[i] != nil && result1.DataPointGroups[i].DataID != nil && has(u.sendBuffer, *result1.DataPointGroups[i].DataID) && result1.DataPointGroups[i].DataPoints == u.sendBuffer[*result1.DataPointGroups[i].DataID]))
+//@   ensures unchanged(u.sendBuffer) && unchanged(u.totalDataPoints) && unchanged(u.sendBufferDataPointsCount)
+//@   loop 1 invariant forall(i, int, imp(0 <= i && i < len(dpgs), dpgs[i] != nil && dpgs[i].DataID != nil && visited(*dpgs[i].DataID) && has(u.sendBuffer, *dpgs[i].DataID) && dpgs[i].DataPoints == u.sendBuffer[*dpgs[i].DataID]))
+//@   loop 1 invariant fresh(dpgs) && len(dpgs) == visitedcount() && u.sendBuffer == old(u.sendBuffer) && u.sequence == old(u.sequence) && u.sequence.Current == old(u.sequence.Current) && u.idAlias == old(u.idAlias) && unchanged(u.totalDataPoints) && unchanged(u.sendBufferDataPointsCount)
+
+// toUpstreamDataPointGroups builds fresh wire groups; nothing that existed before is written.
+// Group i carries exactly group i's points, in order, labelled with the alias of its data id
+// iff the id has one, with the id itself otherwise.
+//@ define labelOK(m, g, rev): imp(has(rev, *g.DataID), typeis(m.DataIDOrAlias, message.DataIDAlias) && unbox(m.DataIDOrAlias, message.DataIDAlias) == rev[*g.DataID]) && imp(!has(rev, *g.DataID), typeis(m.DataIDOrAlias, *message.DataID) && unbox(m.DataIDOrAlias, *message.DataID) == g.DataID)
+//@ define pointsOK(m, g): len(m.DataPoints) == len(g.DataPoints) && forall(j, int, imp(0 <= j && j < len(g.DataPoints), m.DataPoints[j] == g.DataPoints[j]))
+
+//@ func (DataPointGroups).toUpstreamDataPointGroups
+//@   props C01
+//@   requires forall(i, int, imp(0 <= i && i < len(dpgs), dpgs[i] != nil && dpgs[i].DataID != nil))
+//@   modifies nothing
+//@   ensures len(result0) == len(dpgs)
+//@   ensures forall(i, int, imp(0 <= i && i < len(dpgs), result0[i] != nil && labelOK(result0[i], dpgs[i], revAliases)))
+//@   ensures forall(i, int, imp(0 <= i && i < len(dpgs), pointsOK(result0[i], dpgs[i])))
+//@   loop 1 invariant fresh(res) && fresh(resIDs) && len(res) == rangeindex + 1 && rangeindex < len(dpgs)
+//@   loop 1 invariant forall(i, int, imp(0 <= i && i <= rangeindex, res[i] != nil && fresh(res[i]) && labelOK(res[i], dpgs[i], revAliases)))
+//@   loop 1 invariant forall(i, int, imp(0 <= i && i <= rangeindex, pointsOK(res[i], dpgs[i])))
